@@ -206,6 +206,20 @@ func randomScript(r *rng.R, n int) []step {
 	return finish(body)
 }
 
+func h2cString(s *scenario) string {
+	var ids []int
+	for id, on := range s.h2c {
+		if on {
+			ids = append(ids, id)
+		}
+	}
+	sort.Ints(ids)
+	if len(ids) == 0 {
+		return ""
+	}
+	return fmt.Sprint(ids)
+}
+
 func hasLaunch(ts []tok, r int) bool {
 	for _, t := range ts {
 		if t.op == "launch" && t.r == r {
@@ -223,17 +237,54 @@ func main() {
 	flavors := []string{"Plain", "Gin", "Mux"}
 
 	var scs []*scenario
-	add := func(fl string, held, keep bool, sc []step, tag string) *scenario {
-		s := &scenario{flavor: fl, portHeld: held, keepalive: keep, script: sc, tag: tag, sizes: map[int]int{}, split: map[int]bool{}}
+	var groups []*group
+	groupOf := map[int]string{}
+	mk := func(fl string, held, keep bool, sc []step, tag string) *scenario {
+		s := &scenario{flavor: fl, portHeld: held, keepalive: keep, script: sc, tag: tag, sizes: map[int]int{}, split: map[int]bool{}, h2c: map[int]bool{}}
 		for _, st := range sc {
 			if st.op == "launch" || st.op == "late" {
 				s.sizes[st.r] = sizes[r.Intn(len(sizes))]
 				s.split[st.r] = r.Chance(1, 3)
 			}
+			if st.op == "launch" {
+				s.h2c[st.r] = r.Chance(1, 4)
+			}
 		}
 		s.ctxAware = r.Chance(2, 3)
 		scs = append(scs, s)
 		return s
+	}
+	add := func(fl string, held, keep bool, sc []step, tag string) *scenario {
+		s := mk(fl, held, keep, sc, tag)
+		g := &group{idx: []int{len(scs) - 1}}
+		for _, st := range sc {
+			g.order = append(g.order, gstep{0, st})
+		}
+		groups = append(groups, g)
+		return s
+	}
+	// several servers driven by ONE runner func (server.RunServerWithLoggerFactory(nil)), each with its
+	// own context, port, clients and trace; every member is one case, checked by the same monitor
+	addGroup := func(fl string, held []bool, keep bool, order []gstep, tag string) {
+		g := &group{order: order, shared: true}
+		for i := range held {
+			var sc []step
+			for _, gs := range order {
+				if gs.srv == i {
+					sc = append(sc, gs.st)
+				}
+			}
+			mk(fl, held[i], keep, sc, tag)
+			g.idx = append(g.idx, len(scs)-1)
+		}
+		var desc []string
+		for _, gs := range order {
+			desc = append(desc, fmt.Sprintf("%c:%s", 'A'+gs.srv, scriptString([]step{gs.st})))
+		}
+		for i, k := range g.idx {
+			groupOf[k] = fmt.Sprintf("server %c of %d driven by one runner func; global order: %s", 'A'+i, len(held), strings.Join(desc, "; "))
+		}
+		groups = append(groups, g)
 	}
 	ms := func(n int) time.Duration { return time.Duration(n) * time.Millisecond }
 	// small server timeouts; write is only ever set large next to gated requests (a small write
@@ -316,6 +367,49 @@ func main() {
 		withCfg(add(fl, false, false, []step{C, {"start", 0}, {"await", 0}, {"late", 80}}, "timeouts"), tcfg{idle: ms(30), read: ms(40), readHeader: ms(30)})
 	}
 
+	// ---- corpus: in-flight requests from raw-socket clients that offer the h2c upgrade ----
+	for _, fl := range flavors {
+		for k := 0; k < 2; k++ {
+			sn := add(fl, false, false, finish([]step{L(0), C, P, R(0)}), "corpus_h2c")
+			sn.h2c[0] = true
+			sn = add(fl, false, k == 1, finish([]step{L(0), L(1), R(0), C, P, U, R(1)}), "corpus_h2c")
+			sn.h2c[0], sn.h2c[1] = true, k == 0
+			sn = add(fl, false, false, finish([]step{L(0), L(1), L(2), C, P, R(2), R(0), {"late", 41}, R(1)}), "corpus_h2c")
+			sn.h2c[0], sn.h2c[1], sn.h2c[2] = true, false, true
+			sn.sizes[0], sn.sizes[2] = 70000, 3000
+		}
+	}
+
+	// ---- one runner func, several servers ----
+	G := func(srv int, st step) gstep { return gstep{srv, st} }
+	S := step{"start", 0}
+	A := step{"await", 0}
+	greps := 2
+	if cfg.Thorough() {
+		greps = 12
+	}
+	for rep := 0; rep < greps; rep++ {
+		for _, fl := range flavors {
+			keep := rep%2 == 1
+			// A is cancelled with a request in flight; B's runner must not return, B keeps serving; then B
+			addGroup(fl, []bool{false, false}, keep, []gstep{
+				G(0, S), G(1, S), G(0, L(0)), G(1, L(0)), G(0, C), G(0, P), G(1, P), G(0, R(0)), G(0, A), G(0, step{"late", 80}),
+				G(1, P), G(1, L(1)), G(1, R(1)), G(1, C), G(1, P), G(1, R(0)), G(1, A), G(1, step{"late", 80}), G(1, step{"late", 81})}, "shared_runner")
+			// A idle when cancelled
+			addGroup(fl, []bool{false, false}, keep, []gstep{
+				G(0, S), G(1, S), G(1, L(0)), G(0, C), G(0, A), G(0, step{"late", 80}), G(1, P), G(1, L(1)), G(1, C), G(1, U),
+				G(1, R(1)), G(1, R(0)), G(1, A), G(1, step{"late", 80})}, "shared_runner")
+			// three servers, cancelled one after the other (B first)
+			addGroup(fl, []bool{false, false, false}, keep, []gstep{
+				G(0, S), G(1, S), G(2, S), G(0, L(0)), G(1, L(0)), G(2, L(0)), G(1, C), G(1, P), G(1, R(0)), G(1, A), G(1, step{"late", 80}),
+				G(0, P), G(2, P), G(0, L(1)), G(2, L(1)), G(0, C), G(0, R(1)), G(0, R(0)), G(0, A), G(0, step{"late", 80}),
+				G(2, P), G(2, R(0)), G(2, C), G(2, P), G(2, R(1)), G(2, A), G(2, step{"late", 80})}, "shared_runner")
+			// B cannot listen: B's runner returns B's error, A is not disturbed
+			addGroup(fl, []bool{false, true}, keep, []gstep{
+				G(0, S), G(0, L(0)), G(1, S), G(1, A), G(0, P), G(0, L(1)), G(0, C), G(0, P), G(0, R(0)), G(0, R(1)), G(0, A), G(0, step{"late", 80})}, "shared_runner")
+		}
+	}
+
 	// ---- exhaustive small scope ----
 	maxN := map[string]int{"Plain": 3, "Gin": 2, "Mux": 2}
 	if cfg.Thorough() {
@@ -377,24 +471,37 @@ func main() {
 	// ---- run (in parallel, emitted in order) ----
 	workers := 8
 	results := make([]*result, len(scs))
+	runG := func(g *group) {
+		ms := make([]*scenario, len(g.idx))
+		for i, k := range g.idx {
+			ms[i] = scs[k]
+		}
+		for i, res := range runGroup(g, ms) {
+			results[g.idx[i]] = res
+		}
+	}
 	if cfg.Only >= 0 {
-		if cfg.Only < len(scs) {
-			results[cfg.Only] = runScenario(scs[cfg.Only])
+		for _, g := range groups {
+			for _, k := range g.idx {
+				if k == cfg.Only {
+					runG(g)
+				}
+			}
 		}
 	} else {
 		var wg sync.WaitGroup
-		next := make(chan int)
+		next := make(chan *group)
 		for k := 0; k < workers; k++ {
 			wg.Add(1)
 			go func() {
 				defer wg.Done()
-				for i := range next {
-					results[i] = runScenario(scs[i])
+				for g := range next {
+					runG(g)
 				}
 			}()
 		}
-		for i := range scs {
-			next <- i
+		for _, g := range groups {
+			next <- g
 		}
 		close(next)
 		wg.Wait()
@@ -402,7 +509,7 @@ func main() {
 
 	retries, stallRetries := 0, 0
 	for i, s := range scs {
-		canon := fmt.Sprintf("%s|%v|%v|%s|%s", s.flavor, s.portHeld, s.keepalive, scriptString(s.script), s.cfgString())
+		canon := fmt.Sprintf("%s|%v|%v|%s|%s", s.flavor, s.portHeld, s.keepalive, scriptString(s.script), s.cfgString()) + h2cString(s) + groupOf[i]
 		inflight := inFlightAtCancel(s.script)
 		nontrivial := inflight > 0 || s.portHeld || s.script[0].op == "cancel"
 		res := results[i]
@@ -430,7 +537,7 @@ func main() {
 		}
 		js := map[string]interface{}{
 			"router": s.flavor, "port_held": s.portHeld, "keepalive": s.keepalive, "script": scriptString(s.script),
-			"bodies": strings.Join(bodies, " "), "in_flight_at_cancel": inflight, "config": s.cfgString(),
+			"bodies": strings.Join(bodies, " "), "in_flight_at_cancel": inflight, "config": s.cfgString(), "h2c_upgrade_clients": h2cString(s), "group": groupOf[i],
 			"observed": map[string]interface{}{"trace": strings.Join(evjs, " "), "runner_error": res.errText, "notes": res.notes, "clients": res.clients},
 		}
 		w.Count("router:" + s.flavor)
@@ -444,6 +551,12 @@ func main() {
 		}
 		if s.ctxAware {
 			w.Count("handlers_follow_request_context")
+		}
+		if h2cString(s) != "" {
+			w.Count("with_h2c_upgrade_clients")
+		}
+		if groupOf[i] != "" {
+			w.Count("shared_runner_func")
 		}
 		for name, d := range map[string]time.Duration{"idle_timeout": s.idle, "read_timeout": s.read, "write_timeout": s.write, "read_header_timeout": s.readHeader} {
 			if d > 0 {
@@ -459,7 +572,7 @@ func main() {
 	w.Meta["port_retries_address_in_use"] = retries
 	w.Meta["scenarios_rerun_after_expired_wait"] = stallRetries
 	w.Meta["exhaustive_bound"] = exhaustiveBound
-	w.Close("real server.RunServer / gin Run (lura's engine and endpoint handler) / mux Run (lura's endpoint handler) on 127.0.0.1; two thirds of the handlers / stub proxies follow their request context as lura's pipes do; ServiceConfig idle/read/read_header timeouts of 30-80 ms alone and combined (write timeout large next to gated answers) with in-flight handlers held past them; corpus (in flight at cancel with early-return window, refusal while handlers run, 32 in flight with large half-written bodies, cancel before start, port held) + "+exhaustiveBound+" + random scripts with up to 32 requests + repeated listener-failure/early-cancel races; compared: imposed order, trace inclusion in the model, graceful_b; nontrivial = a request in flight at the cancellation, port held or cancelled before start", true)
+	w.Close("real server.RunServer / gin Run (lura's engine and endpoint handler) / mux Run (lura's endpoint handler) on 127.0.0.1; a quarter of the scripted requests come from raw-socket clients offering the h2c upgrade; groups of 2-3 servers driven by one runner func with independent contexts (each server one case); two thirds of the handlers / stub proxies follow their request context as lura's pipes do; ServiceConfig idle/read/read_header timeouts of 30-80 ms alone and combined (write timeout large next to gated answers) with in-flight handlers held past them; corpus (in flight at cancel with early-return window, refusal while handlers run, 32 in flight with large half-written bodies, cancel before start, port held) + "+exhaustiveBound+" + random scripts with up to 32 requests + repeated listener-failure/early-cancel races; compared: imposed order, trace inclusion in the model, graceful_b; nontrivial = a request in flight at the cancellation, port held or cancelled before start", true)
 	if len(scs) == 0 {
 		os.Exit(1)
 	}
